@@ -179,6 +179,9 @@ func mustFail(payload []byte, m types.Message) {
 }
 
 func coqSreq(q sreqSpec) string {
+	if q.Direct {
+		return fmt.Sprintf("(SDirect %s %s)", zlit(q.S), zlit(q.E))
+	}
 	rd := ""
 	switch q.K {
 	case "empty", "shorthdr":
@@ -361,8 +364,8 @@ func emitNet(out *hlib.Out, c netCase, r netResult) {
 		term = coqLim(c, r)
 	}
 	kind := "net-" + c.Net
-	if c.Name == "guarded" {
-		kind += "-guarded"
+	if c.Name == "nonneg" {
+		kind += "-nonneg"
 	}
 	out.Emit(kind, nontrivial, term, c, r)
 }
